@@ -25,8 +25,8 @@ FILES = {
     "src/djinterop/engine/v2/overview_waveform_data_blob.cpp": ["C02", "C03", "C04", "C05"],
     "src/djinterop/engine/v2/track_data_blob.cpp": ["C02", "C03", "C04", "C05"],
     "src/djinterop/engine/v1/performance_data_format.cpp": ["C02", "C03", "C05", "C01"],
-    "src/djinterop/engine/v2/track_impl.cpp": ["C01", "C06", "C02", "C04", "C15", "C14", "C08", "C16"],
-    "src/djinterop/engine/v1/engine_track_impl.cpp": ["C01", "C06", "C02", "C15", "C14", "C08", "C16"],
+    "src/djinterop/engine/v2/track_impl.cpp": ["C06", "C01", "C02", "C04", "C15", "C14", "C08", "C16"],
+    "src/djinterop/engine/v1/engine_track_impl.cpp": ["C06", "C01", "C02", "C15", "C14", "C08", "C16"],
     "src/djinterop/engine/v2/convert_track.hpp": ["C01", "C06"],
     "src/djinterop/engine/v2/convert_hot_cues.hpp": ["C01", "C06", "C15"],
     "src/djinterop/engine/v2/convert_loops.hpp": ["C01", "C06", "C15"],
@@ -250,6 +250,10 @@ def cmd_phase2(a):
             checks = FILES[c["file"]][: a.maxchecks]
             for chk in checks:
                 env = dict(os.environ, REPO=wt, VERIF_REPO=wt, BUILD=bd, VERIF_NO_EVIDENCE="1")
+                if a.fast:
+                    # evaluation-only shortcut: the schema versions of the generation the mutated file belongs to
+                    f = c["file"]
+                    env["VX_SCHEMAS"] = "2.18.0,2.20.3,2.21.2" if "/v2/" in f else "1.6.0,1.15.0,1.18.0-os" if "/v1/" in f else "1.6.0,1.18.0-os,2.18.0,2.21.2"
                 rc, out = sh("timeout 2400 bin/vx check %s --tier quick" % chk, cwd="/verif", timeout=2500, env=env)
                 nv = len([l for l in out.split("\n") if l.startswith("VIOLATION")])
                 c["runs"].append("%s:exit=%d:viol=%d" % (chk, rc, nv))
@@ -339,6 +343,7 @@ if __name__ == "__main__":
     ap.add_argument("--maxchecks", type=int, default=3)
     ap.add_argument("--shard", default="0/1")
     ap.add_argument("--ids", default="")
+    ap.add_argument("--fast", action="store_true")
     ap.add_argument("--checks", default="")
     a = ap.parse_args()
     {"gen": cmd_gen, "phase1": cmd_phase1, "phase2": cmd_phase2, "report": cmd_report, "recheck": cmd_recheck, "clean": cmd_clean}[a.cmd](a)
